@@ -231,11 +231,18 @@ def main():
       mb, info = gg.gen_model(rng, n_subgraphs=1, max_ops=rng.choice([3, 4, 5]),
                               op_weights=['RNN', 'RNN', 'FULLY_CONNECTED', 'TANH', 'ADD', 'MUL'])
       dist['directed:stateful-op'] += 1
+    elif mi % 8 == 2:
+      # directed: bias-less FULLY_CONNECTED ops (an ABSENT operand, index -1) selected on their
+      # own, among ops the recipe leaves alone and whose tensors close the tensor table
+      mb, info = gg.biasless_fc_model(rng)
+      dist['directed:absent-operand'] += 1
     else:
       mb, info = gg.gen_model(rng, max_ops=rng.choice([3, 5, 8]))
     m = og.read(mb)
     qt = quantizer.Quantizer(bytearray(mb))
-    if rng.random() < 0.35:
+    if mi % 8 == 2:
+      desc = gr.apply_rules(qt, [('.*', 'FULLY_CONNECTED', gr.named_configs()['a8w8'][0], rng.choice(['a8w8', 'a16w8']))])
+    elif rng.random() < 0.35:
       desc = rng.choice(['default_a8w8_recipe', 'default_a16w8_recipe'])
       qt.load_quantization_recipe(copy.deepcopy(ship[desc]))
     else:
